@@ -868,6 +868,33 @@ def b_top(bits):
     return ('top', frozenset(d))
 
 
+def _b_eval(x, asg):
+    if x == 0 or x == 1:
+        return x
+    k = x[0]
+    if k == 'b':
+        return asg[(x[1], x[2])]
+    if k == 'not':
+        return 1 - _b_eval(x[1], asg)
+    if k == 'and':
+        return 1 if all(_b_eval(y, asg) for y in x[1]) else 0
+    if k == 'or':
+        return 1 if any(_b_eval(y, asg) for y in x[1]) else 0
+    raise KeyError('imprecise')
+
+
+def _b_has_top(x):
+    if not isinstance(x, tuple):
+        return False
+    if x[0] == 'top':
+        return True
+    if x[0] in ('and', 'or'):
+        return any(_b_has_top(y) for y in x[1])
+    if x[0] == 'not':
+        return _b_has_top(x[1])
+    return False
+
+
 def b_xor(a, b):
     if a == 0:
         return b
@@ -879,6 +906,30 @@ def b_xor(a, b):
         return b_not(a)
     if a == b:
         return 0
+    # exact for formulas over a few input bits (a bit-sliced test such as (s & c) == c compares two such formulas per
+    # position): the truth table, rebuilt as a disjunction of minterms
+    if not _b_has_top(a) and not _b_has_top(b):
+        deps = sorted(b_deps(a) | b_deps(b))
+        if len(deps) <= 4:
+            terms = []
+            for m in range(1 << len(deps)):
+                asg = {d: (m >> i) & 1 for i, d in enumerate(deps)}
+                if _b_eval(a, asg) != _b_eval(b, asg):
+                    terms.append(asg)
+            if not terms:
+                return 0
+            if len(terms) == 1 << len(deps):
+                return 1
+            # drop variables the result does not depend on, then emit minterms
+            live = [d for d in deps if any(({**t, d: 1 - t[d]} not in terms) for t in terms)]
+            seen_, outt = set(), []
+            for t in terms:
+                key_ = tuple(t[d] for d in live)
+                if key_ in seen_:
+                    continue
+                seen_.add(key_)
+                outt.append(b_and([('b', d[0], d[1]) if t[d] else b_not(('b', d[0], d[1])) for d in live]))
+            return b_or(outt)
     t = b_top([a, b])
     return t if t else 0
 
